@@ -688,6 +688,7 @@ func (u *Unit) execSelect(fr *Frame, st *State, x *ssa.Select, where string) {
 	}
 	vs[1] = &Scalar{T: recvOK, Typ: types.Typ[types.Bool]}
 	hasAfter := false
+	hasTicker := false
 	for i, s := range x.States {
 		if s.Dir == types.SendOnly {
 			u.note("select with send case %d in %s", i, fr.key)
@@ -696,6 +697,9 @@ func (u *Unit) execSelect(fr *Frame, st *State, x *ssa.Select, where string) {
 		if cs, ok := u.get(fr, s.Chan).(*Scalar); ok {
 			if strings.HasPrefix(cs.Origin, "after") {
 				hasAfter = true
+			}
+			if strings.HasPrefix(cs.Origin, "ticker") || cs.Origin == "field:Ticker.C" {
+				hasTicker = true
 			}
 			if !x.Blocking && strings.HasPrefix(cs.Origin, "ctxdone") && cs.Aux != nil {
 				// default is taken only when no case is ready
@@ -707,5 +711,6 @@ func (u *Unit) execSelect(fr *Frame, st *State, x *ssa.Select, where string) {
 	u.event(fr, st, "select", map[string]Val{
 		"blocking": &Scalar{T: BoolLit(x.Blocking), Typ: types.Typ[types.Bool]},
 		"hasAfter": &Scalar{T: BoolLit(hasAfter), Typ: types.Typ[types.Bool]},
+		"hasTicker": &Scalar{T: BoolLit(hasTicker), Typ: types.Typ[types.Bool]},
 		"index":    vs[0]}, where)
 }
